@@ -172,6 +172,14 @@ func (w *World) raise(kind FaultKind, id, occ int, canReturnError bool) (err err
 		_ = s[id%7+1] // index out of range
 	case FPanicObj:
 		panic(PanicStruct{id, occ})
+	case FPanicNilErr:
+		var e *nilDerefError
+		panic(error(e))
 	}
 	return nil
 }
+
+// nilDerefError is an error type whose Error method dereferences its receiver.
+type nilDerefError struct{ msg string }
+
+func (e *nilDerefError) Error() string { return e.msg }
